@@ -129,7 +129,7 @@ Qed.
 
 (* ---------- round trip on separator-free values ---------- *)
 Section Sep.
-  Variable sep : Z -> bool.
+  Context (sep : Z -> bool).   (* section-local binder, generalised when the section closes *)
   Definition cnt (s : str) : nat := length (filter sep s).
   Fixpoint litcnt (toks : list tok) : nat :=
     match toks with [] => O | TLit l :: r => (cnt l + litcnt r)%nat | TGrp _ :: r => litcnt r end.
